@@ -1078,8 +1078,51 @@ func replay(c *core.Ctx, path string) error {
 	if f.Engine == "B" {
 		e = encB
 	}
-	if f.Expect == nil {
-		return fmt.Errorf("replay artefact of an engine-B record carries no expectation; re-run the check with seed to have TLC judge it")
+	if f.Engine == "B" {
+		// the artefact holds the matching documents; rebuild, search again, let TLC judge again
+		idx, err := buildIndex(e, f.Layout, f.Docs)
+		if err != nil {
+			return err
+		}
+		defer idx.Close()
+		req, err := newRequest(e, matchQuery(0, f.Docs), f.Variant, []FacetSpec{f.Facet}, false)
+		if err != nil {
+			return err
+		}
+		res, err := idx.Search(req)
+		if err != nil {
+			return err
+		}
+		c.Eval(1)
+		got, note := canon(e, f.Facet, res.Facets[f.Facet.Name])
+		if note != "" {
+			f.Got, f.Clause, f.Note = got, "shape", note
+			report(c, &f)
+			return nil
+		}
+		rec := recordB{Kind: "range", Docs: [][]int{}, Pass: []int{}, Size: f.Facet.Size, Ranges: f.Facet.Ranges, Got: got}
+		for _, d := range f.Docs {
+			rec.Docs = append(rec.Docs, d.Vals)
+		}
+		if f.Facet.Kind == "terms" {
+			rec.Kind, rec.Pass, rec.Ranges = "terms", f.Facet.Filter.pass(vocabB), []Range{}
+		}
+		dummy := recordB{Kind: "terms", Docs: [][]int{}, Pass: []int{}, Ranges: []Range{}, Got: FR{List: []Entry{}}}
+		withDesign := core.TLCOpt(func(o *tlc.Opts) {
+			o.SpecDir = c.SpecDir
+			o.Config = filepath.Join("trace", "JudgeFacets.cfg")
+		})
+		bad, err := c.JudgeRecords("JudgeFacets", "JudgeFacets.cfg", []any{dummy, rec}, 2, withDesign)
+		if err != nil {
+			return err
+		}
+		if inv, ok := bad[1]; ok {
+			f.Got, f.Clause = got, inv
+			report(c, &f)
+		} else {
+			c.Logf("replay: the TLC judge accepts the result now (%s)", core.Canon(got))
+		}
+		return nil
 	}
 	idx, err := buildIndex(e, f.Layout, f.Docs)
 	if err != nil {
